@@ -199,3 +199,41 @@ h!(q_thin_ptrs_u8_u16_n2, 5, thin_ptrs::<u8, u16, 2>(kani::any(), kani::any()));
 h!(q_thin_ptrs_unit_s5a16_n1, 5, thin_ptrs::<(), S5a16, 1>((), [S5a16(bytes())]));
 h!(r1_thin_ptrs_s33a32_u8_n3, 5, thin_ptrs::<S33a32, u8, 3>(S33a32(bytes()), kani::any()));
 h!(r2_thin_ptrs_u64_u64_n0, 5, thin_ptrs::<u64, u64, 0>(kani::any(), []));
+
+// ---- unsize coercions of UniqueArc and ArcBorrow keep allocation, contents and count
+h!(q_unsize_unique_and_borrow, 5, {
+    let x: u16 = kani::any();
+    let u = UniqueArc::new([x, 5u16, 6u16]);
+    let blk = block_nr(0).addr;
+    let us: UniqueArc<[u16]> = unsize::CoerceUnsize::unsize(u, unsize::Coercion::to_slice());
+    assert!(us.len() == 3 && us[0] == x && us[2] == 6);
+    let a = us.shareable();
+    assert!(a.heap_ptr() as usize == blk && Arc::count(&a) == 1 && nalloc() == 1, "unsizing a UniqueArc must keep the allocation and stay a sole owner");
+    let b = Arc::new([x, 1u16]);
+    let c = b.clone();
+    let bs: ArcBorrow<[u16]> = unsize::CoerceUnsize::unsize(b.borrow_arc(), unsize::Coercion::to_slice());
+    let cs: ArcBorrow<[u16]> = unsize::CoerceUnsize::unsize(c.borrow_arc(), unsize::Coercion::to_slice());
+    assert!(bs == cs, "unsized borrows of one allocation must compare equal");
+    assert!(Arc::count(&b) == 2, "unsizing a borrow must not touch the count");
+    drop(a);
+    drop(b);
+    drop(c);
+    assert!(n_live() == 0);
+});
+
+// ---- ptr_eq: same allocation <=> true, for every kind that offers it; dyn metadata is ignored
+h!(q_ptr_eq, 5, {
+    let x: u16 = kani::any();
+    let a = Arc::new(x);
+    let b = a.clone();
+    let c = Arc::new(x);
+    assert!(Arc::ptr_eq(&a, &b) && !Arc::ptr_eq(&a, &c), "Arc::ptr_eq is not allocation identity");
+    assert!(ArcBorrow::ptr_eq(&a.borrow_arc(), &b.borrow_arc()) && !ArcBorrow::ptr_eq(&a.borrow_arc(), &c.borrow_arc()));
+    let d1: Arc<dyn Tr> = unsafe { Arc::from_raw(Arc::into_raw(b) as *const dyn Tr) };
+    let d2: Arc<dyn Tr> = unsafe { Arc::from_raw(Arc::into_raw(c) as *const dyn Tr) };
+    let d3 = d1.clone();
+    assert!(Arc::ptr_eq(&d1, &d3) && !Arc::ptr_eq(&d1, &d2));
+    let u1 = ArcUnion::<u16, u32>::from_first(a);
+    let u2 = u1.clone();
+    assert!(ArcUnion::ptr_eq(&u1, &u2));
+});
